@@ -288,7 +288,7 @@ theorem splitAt_nonpositive_position_blocks {K : Type} [Field K] [LinearOrder K]
 
 /-- Quadratic case of `SplitAt` (the control polygons `quadCase` hands to the builder are `cutsGen`)
 for ANY cut parameters `ts` (whatever the inverse arc length
-returns, as long as no division by `1 - t0 = 0` occurs): the emitted pieces are the curve on the
+returns, as long as every parameter before the last one is below 1: `okCuts`): the emitted pieces are the curve on the
 consecutive parameter intervals `[0,t₁], [t₁,t₂], …` and the remainder is the curve on `[tₙ,1]` —
 the pieces concatenate geometrically to the original, each starting where the previous one ends. -/
 theorem splitAt_pieces_concat_quad {K : Type} [Field K] [LinearOrder K] [IsStrictOrderedRing K] [Env K]
@@ -296,6 +296,17 @@ theorem splitAt_pieces_concat_quad {K : Type} [Field K] [LinearOrder K] [IsStric
     piecesOK Quad.pos p.pos 0 ts (quadCuts p 0 ts).1 ∧
       ∀ s, (quadCuts p 0 ts).2.pos s = p.pos (lastCut 0 ts + (1 - lastCut 0 ts) * s) :=
   quadCuts_ok p.pos ts 0 p h (fun s => by simp)
+
+/-- once a cut parameter has reached 1 (two positions on the end of a Bezier; `t0 < 1.0` fails, 5884f31)
+the loop splits at `tsub = 1`: the emitted piece is the whole remainder and the new remainder is its end
+point - nothing is divided by `1 - t0 = 0` -/
+theorem splitAt_cut_after_end {K : Type} [Field K] [LinearOrder K] [IsStrictOrderedRing K] [Env K]
+    (r : Quad K) (t0 t : K) (ts : List K) (h : ¬ t0 < 1) :
+    quadCuts r t0 (t :: ts) =
+      (C03L.quadL r.1 r.2.1 r.2.2 1 :: (quadCuts (C03L.quadR r.1 r.2.1 r.2.2 1) t ts).1,
+        (quadCuts (C03L.quadR r.1 r.2.1 r.2.2 1) t ts).2) ∧
+    ∀ s, Quad.pos (C03L.quadL r.1 r.2.1 r.2.2 1) s = r.pos s ∧ Quad.pos (C03L.quadR r.1 r.2.1 r.2.2 1) s = r.pos 1 :=
+  ⟨quadCuts_cons_end r t0 t ts h, quad_split_at_one r⟩
 
 /-- the same for the cubic case -/
 theorem splitAt_pieces_concat_cube {K : Type} [Field K] [LinearOrder K] [IsStrictOrderedRing K] [Env K]
@@ -466,7 +477,7 @@ example : StartsWithMove ([.line ⟨1, (2 : Int)⟩, .move ⟨0, 0⟩] : RPath I
 example : pathLength 0 (· + ·) (fun (a : Pt Int) c => (c.endp.x - a.x).natAbs + (c.endp.y - a.y).natAbs)
     ⟨0, 0⟩ [.move ⟨0, 0⟩, .line ⟨3, 0⟩, .move ⟨1, 1⟩, .line ⟨1, 5⟩] = 7 := by decide
 
-example : okCuts (0 : Rat) [1/4, 1/2, 1] := by
-  simp [okCuts]
+example : okCuts (0 : Rat) [1/4, 1/2, 1] :=
+  ⟨by decide +kernel, by decide +kernel, by decide +kernel, trivial⟩
 
 end C09
